@@ -52,7 +52,8 @@ DoFlip ==
 Next == DoAppend \/ DoFlush \/ DoCheckpoint \/ DoReopen \/ DoTruncate \/ DoFlip
 Spec == Init /\ [][Next]_vars
 
-View == <<files, buf, cur, seq>>
+\* NAppends (hidden in hist) decides which steps are still enabled: part of state identity so that the cover is deterministic
+View == <<files, buf, cur, seq, NAppends>>
 Bound == Len(hist) <= MaxHist
 Emit == PrintT(<<"SCRIPT", ToJson(hist')>>)
 \* one script per fault transition (every truncation offset / every byte flip of every reachable state) ...
